@@ -72,13 +72,24 @@ Confirm(t) ==    \* a processed block contains t
   /\ forgot' = [forgot EXCEPT ![t] = @ \cup {clock}]
   /\ act' = A("Confirm", 0, t) /\ UNCHANGED <<clock, asked>>
 
+\* the block that contains t is processed while the node is out of sync (after a header of the trusted peer that did not connect):
+\* the trackers forget t all the same (Node.CleanupBlock).  blocks.go:287 removes the block's transactions from the mempool only
+\* while in sync; a transaction whose body is held is removed anyway, as a spender of its own inputs (MemPool.Conflicting : 294);
+\* one that was only announced keeps its entry and its request time
+ConfirmOos(t) ==
+  /\ ops < MaxOps /\ ops' = ops + 1
+  /\ trk' = [c \in Conn |-> trk[c] \ {t}]
+  /\ body' = [body EXCEPT ![t] = FALSE] /\ reqAt' = [reqAt EXCEPT ![t] = IF body[t] THEN -1 ELSE @]
+  /\ forgot' = [forgot EXCEPT ![t] = @ \cup {clock}]
+  /\ act' = A("ConfirmOos", 0, t) /\ UNCHANGED <<clock, asked>>
+
 Tick == /\ clock < MaxClock /\ clock' = clock + 1 /\ act' = A("Tick", 0, 0)
         /\ UNCHANGED <<body, reqAt, trk, ops, asked, forgot>>
 
 Init == /\ body = [t \in Tx |-> FALSE] /\ reqAt = [t \in Tx |-> -1] /\ trk = [c \in Conn |-> {}]
         /\ clock = 0 /\ ops = 0 /\ asked = <<>> /\ forgot = [t \in Tx |-> {}] /\ act = A("init", 0, 0)
 Next == \/ \E c \in Conn, t \in Tx : Inv(c, t)
-        \/ \E t \in Tx : Body(t) \/ Confirm(t)
+        \/ \E t \in Tx : Body(t) \/ Confirm(t) \/ ConfirmOos(t)
         \/ \E c \in Conn : Check(c)
         \/ Tick
 Spec == Init /\ [][Next]_vars
@@ -93,7 +104,7 @@ NoneAfterBody == NoneAfterBodyP(asked)
 RerequestP(s, t, e) == (e.a = "Check") =>
    \A x \in s.trk[e.c] : (~s.body[x] /\ (s.reqAt[x] = -1 \/ s.clock - s.reqAt[x] >= Win))
         => \E i \in (Len(s.asked) + 1)..Len(t.asked) : t.asked[i].c = e.c /\ t.asked[i].t = x
-ForgottenP(s, t, e) == (e.a = "Confirm") => \A c \in Conn : e.t \notin t.trk[c]
+ForgottenP(s, t, e) == (e.a \in {"Confirm", "ConfirmOos"}) => \A c \in Conn : e.t \notin t.trk[c]
 TrackedOrAskedP(s, t, e) == (e.a = "Inv" /\ ~s.body[e.t]) =>
    \/ \E i \in (Len(s.asked) + 1)..Len(t.asked) : t.asked[i].c = e.c /\ t.asked[i].t = e.t
    \/ e.t \in t.trk[e.c]
